@@ -508,6 +508,20 @@ def sweep_structure(ctx, rule):
         # polarity: `t = inf if xs == [] else mid`, `t = mid if xs != [] else inf`, `t = inf; if xs != []: t = mid` are one value
         if cond.op == "not":
             cond, a_, b_ = cond.args[0], b_, a_
+        if cond.op == "loopvar" and _init(cond).op == "list" and not _init(cond).args[0]:
+            # `if not x_list:` - a list is false exactly when it is empty; here cond is the list itself, so the branches are swapped
+            cond, a_, b_ = mk("cmp", "==", cond, mk("list", ())), b_, a_
+        if cond.op == "loopvar" and _init(cond) is TRUE:
+            # a `first point` flag: True on entry, set to False in the first iteration and never set again
+            sets = [e_ for e_ in r.events if e_.kind == "store" and e_.data.get("tkind") == "name" and e_.func == fq
+                    and e_.data["name"] == cond.args[0] and e_.loops]
+            if sets and all(e_.data["value"] is FALSE for e_ in sets):
+                lst = [s_ for s_ in subterms(b_) if s_.op == "loopvar" and _init(s_).op == "list"]
+                anylist = next((e_.data["fterm"].args[0] for e_ in r.events if e_.kind == "call" and e_.func == fq and e_.loops
+                                and e_.data["fterm"].op == "attr" and e_.data["fterm"].args[1] == "append"
+                                and e_.data["fterm"].args[0].op == "loopvar" and _init(e_.data["fterm"].args[0]).op == "list"), None)
+                if anylist is not None:
+                    cond = mk("cmp", "==", anylist, mk("list", ()))
         if cond.op == "cmp" and cond.args[0] == "!=":
             cond, a_, b_ = mk("cmp", "==", cond.args[1], cond.args[2]), b_, a_
         if cond.op == "cmp" and cond.args[0] == "==":
@@ -548,8 +562,11 @@ def sweep_structure(ctx, rule):
             cols = {const_value(k): v for k, v in dicts[0].args[0] if k.op == "const"}
             okf = set(cols) == {"x", "y", "operation"} and all(
                 cols[k].op in ("loopout", "loopvar") and cols[k].args[0] == next(iter(role[k])) for k in cols)
-            okf = okf and A.eq(ret, A.spec("pd.DataFrame(D).sort_values(by=['x', 'y']).reset_index(drop=True)",
-                                           {"D": dicts[0], "pd": glob("pandas")}))
+            okf = okf and any(A.eq(ret, A.spec(s_, {"D": dicts[0], "pd": glob("pandas")})) for s_ in (
+                "pd.DataFrame(D).sort_values(by=['x', 'y']).reset_index(drop=True)",
+                "pd.DataFrame(D).sort_values(by=['x', 'y'], ignore_index=True)",
+                "pd.DataFrame(D).sort_values(['x', 'y']).reset_index(drop=True)",
+                "pd.DataFrame(D).sort_values(['x', 'y'], ignore_index=True)"))
     ctx.ob(rule, fq, None, bool(okf), "the swept points are returned as DataFrame({x: x_metric values, y: y_metric values, operation: "
            "threshold operations}) sorted by (x, y) with a positional index" if okf else "the returned frame does not pair column x with the "
            "x_metric values, y with the y_metric values and operation with the threshold operations (sorted by (x, y), index reset)",
